@@ -443,9 +443,9 @@ func (c *ComputedStyle) cascadeValue(key pr.PropKey) (value pr.DeclaredValue, sa
 			err = errors.New("no value")
 		} else if shortand != 0 {
 			// the tokens must be expanded (shortand are never variable)
-			value, err = validation.ExpandValidatePending(key.KnownProp, shortand, solvedTokens)
+			value, err = validation.ExpandValidatePending(key.KnownProp, shortand, solvedTokens, c.baseUrl)
 		} else {
-			value, err = validation.Validate(key, solvedTokens)
+			value, err = validation.Validate(key, solvedTokens, c.baseUrl)
 		}
 		if err != nil {
 			logger.WarningLogger.Printf("Ignored `%s: %s`, %s",
